@@ -690,6 +690,11 @@ theorem normInfBy_spec {α : Type} (f : α → ℝ) (a : Array α) (h : 0 < a.si
     · unfold Vec.normInfBy
       simp only [List.getElem?_toArray, List.getElem?_cons_zero]
       rw [hex, ← Array.foldl_toList]
+      -- (repair D14) the NaN test `|x| != |x|` of `norm_inf` never fires over ℝ
+      have hstep : (fun (r : ℝ) (x : α) => if ScalarExt.lt r (f x) || !(f x == f x) then f x else r)
+          = (fun r x => if ScalarExt.lt r (f x) then f x else r) := by
+        funext r x; simp
+      rw [hstep]
     · obtain ⟨h1, h2, h3⟩ := foldl_max_spec f t (f x0)
       constructor
       · intro i hi
